@@ -28,6 +28,7 @@ ROOT = os.path.dirname(os.path.dirname(os.path.abspath(__file__)))
 REPO = os.environ.get("VERIF_REPO", "/repo")
 NPROC = int(os.environ.get("VERIF_NPROC", "16"))
 MAX_VIOLATIONS_PER_SHARD = 5
+SHRINK_BUDGET = float(os.environ.get("VERIF_SHRINK_BUDGET", "20"))  # seconds of shrinking per shard after the first failure
 
 
 def seed_value():
@@ -178,10 +179,15 @@ class Acc:
 
         def body(case):
             if holder.get("abort"):
-                return
+                raise KeyboardInterrupt()  # makes Hypothesis stop at once; caught below
+            if "shrink_until" in holder and time.time() > holder["shrink_until"]:
+                # shrinking budget used up: keep the smallest failure found so far (the verdict is not affected)
+                holder["abort"] = True
+                raise KeyboardInterrupt()
             exc = acc.evaluate(check_case, case, enumerated=False)
             if exc is not None:
                 holder["failure"] = (case, exc)
+                holder.setdefault("shrink_until", time.time() + SHRINK_BUDGET)
                 if exc.clause == "non-termination":
                     # do not shrink through hanging cases: keep this one and make Hypothesis stop
                     holder["abort"] = True
@@ -207,13 +213,19 @@ class Acc:
         except Violation:
             case, exc = holder["failure"]
             self.add_violation(case, exc)
+        except KeyboardInterrupt:
+            if not holder.get("abort"):
+                raise
+            case, vexc = holder["failure"]
+            self.add_violation(case, vexc)
         except hypothesis.errors.FailedHealthCheck as exc:
             raise HarnessError("hypothesis health check: %s" % exc)
         except hypothesis.errors.Flaky as exc:
             # the oracle or the library is not deterministic for this case: report what we have
             if "failure" in holder:
                 case, vexc = holder["failure"]
-                self.add_violation(case, Violation(vexc.clause, "(flaky) %s" % vexc.detail))
+                note = "" if holder.get("abort") else "(flaky) "
+                self.add_violation(case, Violation(vexc.clause, "%s%s" % (note, vexc.detail)))
             else:
                 raise HarnessError("hypothesis flaky without recorded failure: %s" % exc)
 
